@@ -188,6 +188,17 @@ ROUND6 = {
  "C19": "Skip policy written at project level next to an env whose own diff block is empty; the library skip option also with check and attribute kinds.",
  "C20": "Three tables of the PostgreSQL base share one enum (dropping everything gives one change several later dependencies).",
 }
+ROUND7 = {
+ "C02": "SQLite table with two foreign keys without constraint names (positional labels), renumbered when the declaration order is permuted; PostgreSQL serial column as inspected (with its sequence name), integer <-> serial retypes.",
+ "C05": "Desired state also as an HCL document (string defaults arrive unquoted); the expected fill of a NULL under a new NOT NULL column is the model's default, not the migrated table's; enumerated sub-check null-becomes-default (column type x default shape x source of the desired state).",
+ "C08": "Runs of BEGIN ATOMIC words in the growth sub-check (all four option sets), run lengths grown two words at a time.",
+ "C11": "The execution order stated by the flag, by the env of a project file, or by the flag against another order in the env (enumerated for an out-of-order file, sampled in the histories).",
+ "C12": "CLI tier: the file added below an applied one, first attempt with --exec-order non-linear (its partial revision is not the newest); next run non-linear (same expectations) or linear with a newer pending file (refused, nothing executed).",
+ "C15": "MySQL ENUM and SET columns carrying their own character set / collation.",
+ "C16": "Inspected serial column in the PostgreSQL base (serial <-> integer retypes plan sequence statements).",
+ "C19": "One to three patterns in the exclude list of the CLI tier (a resource matched by a later pattern only).",
+ "C20": "The same HCL files evaluated 24 times under names that share one base name in several directories.",
+}
 
 PENDING_REASON = "check not built yet in this session (planned in DESIGN.md section 4; will be claimed once its quick check is green and sensitivity-tested)"
 
@@ -223,6 +234,8 @@ def main():
                 text = text + " Added after the fifth seeded-change round: " + ROUND5[pid]
             if pid in ROUND6:
                 text = text + " Added after the sixth round: " + ROUND6[pid]
+            if pid in ROUND7:
+                text = text + " Added after the seventh round: " + ROUND7[pid]
             m["checks"].append({
               "property_id": pid,
               "quick_cmd": "./check %s quick" % pid,
